@@ -340,6 +340,8 @@ func isoScenarios(tier string) []*mc.Scenario {
 			tokenOp(0, `{"u":11}`, "", 2),
 			op("x.n=1", 2, func(w *mc.World) { w.Svc.Change("test.x", "n", `1`) }),
 			op("tokenReset a", 3, func(w *mc.World) { w.Svc.TokenReset("auth.test.renew", "a") }),
+			// an empty string in the list is not the id of the connections without token id (c1 by now, c3)
+			op("tokenReset empty", 3, func(w *mc.World) { w.Svc.TokenReset("auth.test.renew2", "", "zz") }),
 			op("http", 3, func(w *mc.World) { w.HTTP(mc.HTTPReq{Method: "GET", URL: "/api/test/m"}) }),
 		}}},
 		Menu: func(w *mc.World, r *mc.Req) []mc.Outcome {
